@@ -464,6 +464,13 @@ def _used_names_in_file(filename: Path) -> Collection[str]:
             if isinstance(node.value, ast.Name) and node.value.id in imported_names:
                 names.append(node.value.id)
 
+    for node in core.walk(ast_root, (ast.keyword, ast.MatchClass)):
+        # Keyword arguments and keyword patterns name parameters / attributes of the callee
+        if isinstance(node, ast.keyword) and node.arg is not None:
+            names.append(node.arg)
+        elif isinstance(node, ast.MatchClass):
+            names.extend(node.kwd_attrs)
+
     return frozenset(names)
 
 
